@@ -54,6 +54,7 @@ Inductive case :=
 | CSer (ops : list sop) (result : res (list N))
 | CRead (d : list N) (evs : list ev) (o : rop) (result : res sval) (consumed : nat) (alloc : N)
 | CWrite (pre : list N) (o : wop) (result : res (list N))
+| CWriteEnd (pre : list N) (o : wop) (result : res (list N))   (* the helper's write is the LAST one: no sentinel *)
 | COMap (kk vk : nk) (input : list N) (result : res (list (Z * Z) * nat)) (alloc : N)
 | CFrom (arr : bool) (input : list N) (result : res (sval * nat)).
 
@@ -95,6 +96,9 @@ Definition agree (c : case) : bool :=
   | CWrite pre o result =>
       res_eqb bytes_eqb (match wop_run o (mkB pre (length pre)) with Ok b => Ok (bbuf (bb_write b [238%N])) | Err e => Err e | Panic => Panic end) result
       (* the harness writes one sentinel byte after the helper returns: the final write position is observed too *)
+  | CWriteEnd pre o result =>
+      res_eqb bytes_eqb (match wop_run o (mkB pre (length pre)) with Ok b => Ok (bbuf b) | Err e => Err e | Panic => Panic end) result
+      (* Bytes() right after the helper: what a reader of the finished stream gets when nothing else is written *)
   | COMap kk vk input result alloc =>
       let '(x, cost) := om_decode kk vk input in
       res_eqb (fun a b => list_eqb pairZ_eqb (fst a) (fst b) && (snd a =? snd b)) x result && alloc_ok alloc cost
